@@ -279,6 +279,21 @@ def finish(pid, out, tier, seed, t0, level, spec):
             'exhaustive': True,
             'explanation': 'bounded symbolic model checking: exhaustive within each harness bound, nothing beyond it',
         })
+    if level == 'exploration':
+        racs = [b for b in out.bounded if b.get('kind') == 'bounded-rac' and b.get('result') == 'SUCCESSFUL']
+        ev['coverage'].update({
+            'evaluations': sum(int(b.get('checks') or 0) for b in racs),
+            'distinct_nontrivial': sum(int(b.get('nontrivial') or 0) for b in racs),
+            'rule': 'BOUNDED runtime check of the function contract on the real code (cfg(test) overlay of /repo): the inputs are enumerated '
+                    'exhaustively inside the bound each program states (coverage.bounded[].bound); evaluations = inputs on which every clause of the '
+                    'contract was evaluated; distinct_nontrivial = inputs, all distinct by construction of the enumeration, on which the operation '
+                    'under contract actually did something (rule per program: the output differs from the input / a lint exists / the record holds hostile text)',
+            'exhaustive': True,
+            'explanation': 'no verifier reaches these functions (external serde_json / hashing / dictionary data / BTreeMap<String>): the contract is '
+                           'executed, not proved; nothing here counts as a discharged obligation',
+        })
+        if not ev['coverage']['samples'] or 'note' in ev['coverage']['samples'][0]:
+            ev['coverage']['samples'] = [{'bounded-rac': b['harness'], 'bound': b.get('bound')} for b in racs] or [{'note': 'nothing ran'}]
     os.makedirs(os.path.join(ROOT, 'evidence'), exist_ok=True)
     with open(os.path.join(ROOT, 'evidence', f'{pid}.json'), 'w') as f:
         json.dump(ev, f, indent=1)
